@@ -108,3 +108,22 @@ Proof.
     - destruct o as [[|] q|]; apply IH. }
   apply G.
 Qed.
+
+(* ---- both threshold modes (hard 0/1 and soft expit(T * margin)): whatever the point prediction is, the reported bounds are
+   prediction - sum w_i * loss_i and prediction + sum w_i * gain_i with 0/1 (in particular non-negative) losses and gains ---- *)
+Fixpoint dot (ws xs : list Q) : Q := match ws, xs with w :: ws', x :: xs' => w * x + dot ws' xs' | _, _ => 0 end.
+
+Lemma dot_nonneg (ws xs : list Q) : Forall (fun w => 0 <= w) ws -> Forall (fun x => 0 <= x) xs -> 0 <= dot ws xs.
+Proof.
+  revert xs. induction ws as [|w ws IH]; intros xs Hw Hx; cbn [dot]; [lra|].
+  destruct xs as [|x xs]; [lra|].
+  inversion Hw as [|? ? Hw1 Hw2]; inversion Hx as [|? ? Hx1 Hx2]; subst.
+  specialize (IH xs Hw2 Hx2). nra.
+Qed.
+
+Theorem order_any_threshold (pred : Q) (ws losses gains : list Q) :
+  Forall (fun w => 0 <= w) ws -> Forall (fun x => 0 <= x) losses -> Forall (fun x => 0 <= x) gains ->
+  pred - dot ws losses <= pred /\ pred <= pred + dot ws gains.
+Proof.
+  intros Hw Hl Hg. pose proof (dot_nonneg ws losses Hw Hl). pose proof (dot_nonneg ws gains Hw Hg). lra.
+Qed.
